@@ -63,6 +63,7 @@ def cases(tier):
             out.append(('H2', pipe, ns, 0))
     out.append(('H2q', 'chain3', None, 0))
     out.append(('H3', 0, 0, 0))
+    out.append(('H4', 0, 0, 0))
     return out
 
 
@@ -88,6 +89,8 @@ def make_harness(case, tier):
         return h1(case)
     if kind in ('H2', 'H2q'):
         return h2(case)
+    if kind == 'H4':
+        return h4(case)
     return h3(case)
 
 
@@ -252,6 +255,51 @@ def h3(case):
             import shutil
             if not keylib.in_replay():
                 shutil.rmtree(d, ignore_errors=True)
+    return harness
+
+
+def h4(case):
+    """One task fed by the same task class through two sibling namespaces (train / valid): two configurations of the
+    whole tree with symbolic sizes share one store."""
+    keylib.setup(full=True, hash_mode='uf')
+
+    def harness(ctx):
+        from taskchain import Config
+        fs = keylib.fresh_fs()
+        ds = [P('Dataset', params=[par('size')])]
+        mg = [P('Merge', inputs=[inp('train::dataset', 'name'), inp('valid::dataset', 'name')]),
+              P('Report', inputs=[inp('Merge')])]
+        sizes = [ctx.sym_int(f's{i}') for i in range(4)]
+        base = fs.path('/data')
+        chains, exps = [], []
+        for n, (a, b) in enumerate(((sizes[0], sizes[1]), (sizes[2], sizes[3]))):
+            dcl = family.make_pipeline(ds)
+            mcl = family.make_pipeline(mg)
+            ct = Config(base, name=f'tr{n}', namespace='train', data={'tasks': list(dcl.values()), 'size': a})
+            cv = Config(base, name=f'va{n}', namespace='valid', data={'tasks': list(dcl.values()), 'size': b})
+            main = Config(base, name=f'main{n}', data={'tasks': list(mcl.values()), 'uses': [ct, cv]})
+            chains.append(keylib.chain(main))
+            dt = family.tag('dataset', {'size': a}, {})
+            dv = family.tag('dataset', {'size': b}, {})
+            mv = family.tag('merge', {}, {'dataset': dv})       # both inputs arrive under the key `dataset`...
+            exps.append({'train::dataset': dt, 'valid::dataset': dv})
+        # ...so the merged value only shows the LAST input; compare through the datasets and the merge's inputs
+        for n in ('train::dataset', 'valid::dataset', 'merge', 'report'):
+            chains[0].tasks[n].value
+        for n in ('train::dataset', 'valid::dataset'):
+            got = chains[1].tasks[n].value
+            ctx.check(value_eq(got, exps[1][n]), 'own-value-symbolic', {'wiring': True, 'task': n, 'sizes': sizes})
+        m0, m1 = chains[0].tasks['merge'], chains[1].tasks['merge']
+        r0, r1 = chains[0].tasks['report'], chains[1].tasks['report']
+        same_inputs = z3.And(sizes[0].t == sizes[2].t, sizes[1].t == sizes[3].t) if isinstance(sizes[0], Sym) else \
+            z3.BoolVal(sizes[0] == sizes[2] and sizes[1] == sizes[3])
+        # the merge / report of configuration 2 may only be served from configuration 1's results when both inputs agree
+        for t0, t1, nm in ((m0, m1, 'merge'), (r0, r1, 'report')):
+            before = len(family.RUNLOG)
+            t1.value
+            reran = any(r[0] == nm for r in family.RUNLOG[before:])
+            ctx.check(z3.Or(z3.BoolVal(reran), same_inputs), 'own-value-symbolic',
+                      {'wiring': True, 'task': nm, 'sizes': sizes, 'served_from_store': not reran})
     return harness
 
 
